@@ -105,3 +105,57 @@ Proof.
     rewrite (no_comma_is_fetch_failure dbg hp ho hd s rem u Hs Hp H47 Hu Hr).
     unfold process_and_decode, process_and_decode_bytes, process_bytes. rewrite HA. cbn [bind]. rewrite Hr. reflexivity.
 Qed.
+
+(* ---- the header clauses on their own ---- *)
+(* the base64 flag of parse_header is step 11's condition on the serialized header *)
+Theorem base64_flag_is_fetch dbg hp ho hd s rem u h B : usv_list s ->
+  parse_scheme CUrlParser (input_new_trim_c0 s) = Some (s_data, rem) -> inp_split_prefix_char 47 rem = None ->
+  parse_url dbg hp ho hd None None s = POk u ->
+  find_comma_before_fragment (utf8_encode rem) = Ok (Some (h, B)) ->
+  ~ In 63 h ->
+  exists mimeType encodedBody,
+    collect_until_comma (skipn 5 (url_without_fragment u)) = (mimeType, Some encodedBody)
+    /\ forall m b, parse_header h = Ok (m, b) ->
+       b = match ends_with_base64_marker (strip_leading_and_trailing_ascii_whitespace mimeType) with
+           | Some _ => true
+           | None => false
+           end.
+Proof.
+  intros Hs Hp H47 Hu Hr Hq.
+  destruct (header_is_fetch_header dbg hp ho hd s rem u h B Hs Hp H47 Hu Hr Hq) as (mt & eb & Hc & Hh).
+  exists mt, eb. split; [exact Hc|]. intros m b Hph.
+  assert (Hbh : bytes h).
+  { destruct (parse_opaque_explicit dbg hp ho hd s s_data rem u Hs Hp scheme_type_of_data H47 Hu) as [Hur _].
+    exact (proj1 (find_comma_bytes _ _ _ (utf8_encode_bytes rem Hur) Hr)). }
+  rewrite (parse_header_std h Hbh) in Hph. inversion Hph as [[E1 E2]]. rewrite Hh. unfold fetch_header.
+  destruct (ends_with_base64_marker (strip_leading_and_trailing_ascii_whitespace mt)); reflexivity.
+Qed.
+
+(* the MIME type record of parse_header is the one steps 6, 11-14 of the processor compute *)
+Theorem mime_type_is_fetch dbg hp ho hd s rem u h B : usv_list s ->
+  parse_scheme CUrlParser (input_new_trim_c0 s) = Some (s_data, rem) -> inp_split_prefix_char 47 rem = None ->
+  parse_url dbg hp ho hd None None s = POk u ->
+  find_comma_before_fragment (utf8_encode rem) = Ok (Some (h, B)) ->
+  ~ In 63 h ->
+  exists mimeType encodedBody,
+    collect_until_comma (skipn 5 (url_without_fragment u)) = (mimeType, Some encodedBody)
+    /\ forall m b, parse_header h = Ok (m, b) ->
+       record_of_mime m = match parse_a_mime_type (fst (fetch_header mimeType)) with
+                          | Some r => r
+                          | None => text_plain_us_ascii
+                          end.
+Proof.
+  intros Hs Hp H47 Hu Hr Hq.
+  destruct (header_is_fetch_header dbg hp ho hd s rem u h B Hs Hp H47 Hu Hr Hq) as (mt & eb & Hc & Hh).
+  exists mt, eb. split; [exact Hc|]. intros m b Hph.
+  assert (Hbh : bytes h).
+  { destruct (parse_opaque_explicit dbg hp ho hd s s_data rem u Hs Hp scheme_type_of_data H47 Hu) as [Hur _].
+    exact (proj1 (find_comma_bytes _ _ _ (utf8_encode_bytes rem Hur) Hr)). }
+  rewrite (parse_header_std h Hbh) in Hph. inversion Hph as [[E1 E2]]. rewrite record_of_std, Hh. reflexivity.
+Qed.
+
+(* the statement left open in C17_Main *)
+Theorem mime_statement_holds : C17_mime_statement.
+Proof.
+  intros t Ht. rewrite (mime_parse_equiv t (printable_qs t Ht)). reflexivity.
+Qed.
